@@ -169,7 +169,7 @@ _IS_INCLUDE_LINE = re.compile(
 
 
 def _is_fix_cont(line):
-    return line and len(line) > 5 and line[5] != " " and line[:5] == 5 * " "
+    return line and len(line) > 5 and line[5] not in " 0" and line[:5] == 5 * " "
 
 
 def _is_fix_comment(line, isstrict, f2py_enabled):
